@@ -18,5 +18,6 @@ c.prop('C16')
 ls = c.loop('', 0)
 ls.for_prop('C16', head=['_t0 = trace_len()'],
             tail=['_y = events_since(_t0, "gen-yield")',
+                  '_e = _head[0]',       # the pair taken from the service in this iteration
                   'oblige("one-yield-per-result", len(_y) == 1)',
-                  'oblige("yields-the-result-unchanged", len(_y) != 1 or (_y[0][2][0] == result and _y[0][2][1] == status))'])
+                  'oblige("yields-the-result-unchanged", len(_y) != 1 or (_y[0][2][0] == _e[0] and _y[0][2][1] == _e[1]))'])
